@@ -291,6 +291,12 @@ Definition impl_union_auto (config : cmeta) : bool :=
   match config with Some c => otruthy (get k_auto c) | None => false end.
 Definition spec_union_auto (e : cmeta) : bool := otruthy (cget k_auto e).
 
+(* dump side, class reachable BY VALUE only (root field annotated `list` / `Any` / `Dict[str, Any]`): the root's
+   own auto-tag step does not reach it; its Union parser is built by the class's own dump-function generation,
+   `if meta.auto_assign_tags:` on the MERGED Meta — and that parser again reads config.auto_assign_tags *)
+Definition impl_union_auto_byvalue (config o : cmeta) : bool :=
+  impl_union_auto config && otruthy (cget k_auto (bound_meta config o)).
+
 (* region of finding F22: the class sets auto_assign_tags itself and the value differs from
    the one the cascading root config provides *)
 Definition in_region_auto (config o : cmeta) : bool :=
@@ -402,8 +408,9 @@ Definition show_impl (e : engine) (root o : cmeta) : pstr :=
 Definition show_spec (root o : cmeta) : pstr :=
   show_behaviour (spec_behaviour (effective o root)) (spec_union_auto (effective o root)).
 
-Definition show_hist (o : cmeta) (h : list use) (u : use) : pstr :=
-  show_behaviour (hist_behaviour o h u) (impl_union_auto (config_of_use u))
+Definition show_hist (by_value : bool) (o : cmeta) (h : list use) (u : use) : pstr :=
+  show_behaviour (hist_behaviour o h u)
+    (if by_value then impl_union_auto_byvalue (config_of_use u) o else impl_union_auto (config_of_use u))
   ++ S "|" ++ join (S ",") (map show_sval (hist_whitelist o h u))
   ++ S "|" ++ show_o (hist_v1_alias o h u).
 
